@@ -25,6 +25,11 @@ def points():
     return _POINTS
 
 
+# value pools: mixed case, non-ASCII and numeric-looking names (collation / affinity traps)
+SEQIDS = ["a", "b", "a", "b", "A", "10", "9", "\u00e9"]
+FEATURETYPES = ["x", "y", "z", "x", "y", "X"]
+
+
 def random_db(rng, n=6):
     feats = []
     for i in range(n):
@@ -33,7 +38,7 @@ def random_db(rng, n=6):
             b = a + rng.choice([0, 1, 2, 50, 2 ** 17, 2 ** 20])
         s, e = min(a, b), max(a, b)
         r = rng.random()
-        f = F.Feature(seqid=rng.choice(["a", "b"]), source="src", featuretype=rng.choice(["x", "y", "z"]),
+        f = F.Feature(seqid=rng.choice(SEQIDS), source="src", featuretype=rng.choice(FEATURETYPES),
                       start="." if r < 0.07 else s, end="." if 0.05 < r < 0.12 else e, strand=rng.choice(["+", "-", "."]),
                       attributes={"ID": ["f%d" % i]})
         f.id = "f%d" % i
